@@ -115,6 +115,11 @@ L_z0 == SuperH(<<MZ0>>, ROne, Q1)
 L_z1 == SuperH(<<MZ1>>, ROne, Q1)
 L_xp == SuperH(<<MXP>>, R(1, 4), Q1)
 L_xm == SuperH(<<MXM>>, R(1, 4), Q1)
+MYP == CMatInt(<< <<<<1,0>>, <<0,-1>>>>, <<<<0,1>>, <<1,0>>>> >>)         \* 2|+i><+i|, c = 1/4
+MYM == CMatInt(<< <<<<1,0>>, <<0,1>>>>, <<<<0,-1>>, <<1,0>>>> >>)
+L_yp == SuperH(<<MYP>>, R(1, 4), Q1)
+L_ym == SuperH(<<MYM>>, R(1, 4), Q1)
+M_my == <<L_yp, L_ym>>                                                  \* projective y, Lueders
 M_mz == <<L_z0, L_z1>>                                                  \* projective z, Lueders
 M_mx == <<L_xp, L_xm>>                                                  \* projective x, Lueders
 \* three outcomes: (1/2) Lueders |0>, (1/2) |1> detected and flipped to |0>, (1/2) Hadamard channel
@@ -123,5 +128,5 @@ M_m3 == <<MatScale(R(1, 2), L_z0), MatScale(R(1, 2), SuperH(<<CMatMul(U_X, MZ1)>
 M_m4 == <<MatScale(R(1, 2), L_z0), MatScale(R(1, 2), L_z1), MatScale(R(1, 2), L_xp), MatScale(R(1, 2), L_xm)>>
 M_m5 == <<MatScale(R(1, 2), L_z0), MatScale(R(1, 2), L_z1), MatScale(R(1, 4), L_xp), MatScale(R(1, 4), L_xm), MatScale(R(1, 4), G_id)>>
 QMProcess(name) ==
-    CASE name = "m5" -> M_m5 [] name = "mz" -> M_mz [] name = "mx" -> M_mx [] name = "m3" -> M_m3 [] name = "m4" -> M_m4
+    CASE name = "m5" -> M_m5 [] name = "my" -> M_my [] name = "mz" -> M_mz [] name = "mx" -> M_mx [] name = "m3" -> M_m3 [] name = "m4" -> M_m4
 =============================================================================
